@@ -62,6 +62,57 @@ theorem advance_defined (hdt : 0 < dt) {out : K} (hout : out ≤ tEnd) (s : St K
   obtain ⟨fuel, hf⟩ := reaches_advance hr
   exact ⟨fuel, s', lg, hf⟩
 
+/-! ### the whole `integrate`: defined for all sufficiently large fuel -/
+
+/-- more fuel never changes a result of the fuelled loop -/
+theorem advance_mono {plus : K → K} : ∀ (fuel : Nat) (out : K) (s : St K Y X) (log : List (K × K)) {r},
+    advance plus tEnd step fuel out s log = some r → advance plus tEnd step (fuel + 1) out s log = some r
+  | 0, _, _, _, _, h => by simp [advance] at h
+  | fuel + 1, out, s, log, r, h => by
+      unfold advance at h ⊢
+      split
+      · rename_i hlt
+        rw [if_pos hlt] at h
+        exact advance_mono fuel out _ _ h
+      · rename_i hnl
+        rw [if_neg hnl] at h
+        exact h
+
+theorem advance_mono_le {plus : K → K} {fuel fuel' : Nat} (hle : fuel ≤ fuel') {out : K} {s : St K Y X} {log r}
+    (h : advance plus tEnd step fuel out s log = some r) : advance plus tEnd step fuel' out s log = some r := by
+  induction hle with
+  | refl => exact h
+  | step _ ih => exact advance_mono _ _ _ _ ih
+
+/-- `outputs` (the `for out_t in ts[1:]` loop) returns for every fuel above a threshold, when all output times are `≤ ts[-1]` -/
+theorem outputs_defined (hdt : 0 < dt) (interp : K → Y → K → Y → K → Y) :
+    ∀ (ts : List K), (∀ t ∈ ts, t ≤ tEnd) → ∀ (s : St K Y X) (log : List (K × K)),
+      ∃ fuel, ∀ fuel', fuel ≤ fuel' → (outputs (fun c : K => c + dt) tEnd step interp fuel' ts s log).isSome
+  | [], _, _, _ => ⟨0, fun _ _ => by simp [outputs]⟩
+  | out :: rest, hts, s, log => by
+      obtain ⟨f1, s', lg, h1⟩ := advance_defined (step := step) hdt (hts out (by simp)) s
+      obtain ⟨f2, h2⟩ := outputs_defined hdt interp rest (fun t ht => hts t (by simp [ht])) s' (log ++ lg)
+      refine ⟨max f1 f2, fun fuel' hf => ?_⟩
+      have ha := advance_mono_le (le_trans (le_max_left f1 f2) hf) (h1 log)
+      have ho := h2 fuel' (le_trans (le_max_right f1 f2) hf)
+      simp only [outputs, ha]
+      cases hq : outputs (fun c : K => c + dt) tEnd step interp fuel' rest s' (log ++ lg) with
+      | none => simp [hq] at ho
+      | some q => simp
+
+/-- `integrate(y0, ts, extra0)` of the model is defined (for every large enough fuel) for every `ts` whose entries are `≤ ts[-1]`,
+every `dt > 0` and every solver step: the fixed-step solve always returns. -/
+theorem integrate_defined (hdt : 0 < dt) (interp : K → Y → K → Y → K → Y) (y0 : Y) (t0 : K) (rest : List K) (x0 : X)
+    (hts : ∀ t ∈ rest, t ≤ tEnd) :
+    ∃ fuel, ∀ fuel', fuel ≤ fuel' → (integrate (fun c : K => c + dt) tEnd step interp fuel' y0 t0 rest x0).isSome := by
+  obtain ⟨fuel, h⟩ := outputs_defined (step := step) hdt interp rest hts ⟨t0, y0, t0, y0, x0⟩ []
+  refine ⟨fuel, fun fuel' hf => ?_⟩
+  have := h fuel' hf
+  simp only [integrate]
+  cases hq : outputs (fun c : K => c + dt) tEnd step interp fuel' rest ⟨t0, y0, t0, y0, x0⟩ [] with
+  | none => simp [hq] at this
+  | some q => simp
+
 /-- why the clip has to be the LAST output time: a state sitting at `tEnd < out` never reaches `out` -/
 theorem clipped_never_reaches (hdt : 0 < dt) {out : K} (hout : tEnd < out) {s s' : St K Y X} {lg}
     (hs : s.ct = tEnd) : ¬ REACH out s s' lg := by
